@@ -72,7 +72,7 @@ def cases(tier, seed):
         for fi, f in enumerate(facs[:(4 if not T else 14)]):
             for tgt in with_ones(f, rng, allv=(fi == 0 and si % 4 == 0)):
                 i = len(cs)
-                cs.append({'gen': 'reshape_t', 'N': N, 'target': tgt, 'eps': EPS[i % 6], 'vals': ['gauss', 'decay', 'int', 'graded'][i % 4], 'dtype': DTS[(i // 4) % 4]})
+                cs.append({'gen': 'reshape_t', 'N': N, 'target': tgt, 'eps': EPS[i % 6], 'vals': ['gauss', 'decay', 'int', 'graded', 'tiny', 'decay', 'huge'][i % 7], 'dtype': DTS[(i // 4) % 4]})
     # reshape operators
     for i in range(300 if not T else 6000):
         d = rng.randint(1, 3)
@@ -88,7 +88,7 @@ def cases(tier, seed):
             tgt = [[1, 1]] + tgt
         elif form == 3 and len(tgt) >= 2:
             tgt = tgt[:1] + [[1, 1]] + tgt[1:]
-        cs.append({'gen': 'reshape_m', 'M': M, 'N': N, 'target': tgt, 'eps': EPS[i % 6], 'vals': ['gauss', 'decay', 'int'][i % 3], 'dtype': DTS[(i // 3) % 4]})
+        cs.append({'gen': 'reshape_m', 'M': M, 'N': N, 'target': tgt, 'eps': EPS[i % 6], 'vals': ['gauss', 'decay', 'int', 'tiny', 'huge'][i % 5], 'dtype': DTS[(i // 3) % 4]})
     # permute: all permutations
     for d in range(1, 6 if not T else 7):
         perms = list(itertools.permutations(range(d)))
@@ -102,12 +102,12 @@ def cases(tier, seed):
                 i = len(cs)
                 pool = (1, 2, 3, 4, 5) if d <= 4 else (1, 2, 3)
                 cs.append({'gen': 'permute', 'N': gens.modes(rng, d, pool, distinct=(pi % 3 != 0)), 'M': [rng.choice((1, 2, 3)) for _ in range(d)] if ttm else None, 'perm': list(p),
-                           'eps': [None, 1e-12, 1e-8, 1e-3, 1e-1][i % 5], 'vals': ['gauss', 'decay', 'int'][i % 3], 'dtype': DTS[(i // 5) % 4]})
+                           'eps': [None, 1e-12, 1e-8, 1e-3, 1e-1][i % 5], 'vals': ['gauss', 'decay', 'int', 'tiny', 'huge', 'decay', 'tiny'][i % 7], 'dtype': DTS[(i // 5) % 4]})
     # QTT
     for i in range(150 if not T else 2500):
         d = rng.randint(1, 3)
         N = [rng.choice((1, 2, 4, 8, 16) if d < 3 else (1, 2, 4, 8)) for _ in range(d)]
-        cs.append({'gen': 'qtt', 'N': N, 'ttm': i % 4 == 3, 'eps': [None, 1e-10, 1e-4, 1e-1][i % 4], 'vals': ['gauss', 'decay'][i % 2], 'dtype': DTS[(i // 4) % 4], 'ms': 2})
+        cs.append({'gen': 'qtt', 'N': N, 'ttm': i % 4 == 3, 'eps': [None, 1e-10, 1e-4, 1e-1][i % 4], 'vals': ['gauss', 'decay', 'tiny'][i % 3], 'dtype': DTS[(i // 4) % 4], 'ms': 2})
     for N in ([3], [9], [27], [3, 9], [9, 9]):
         cs.append({'gen': 'qtt', 'N': N, 'ttm': False, 'eps': None, 'vals': 'gauss', 'dtype': 'f64', 'ms': 3})
     return cs
@@ -148,6 +148,12 @@ def build(case, g, N, M=None):
     if vals == 'graded':
         scales = [10.0 ** rr.uniform(-3, 3) for _ in range(d)]
         return gens.make_tt(N, R, dt, 'gauss', g, M=M, scales=scales)
+    if vals in ('tiny', 'huge'):
+        # overall norm far from 1: a truncation threshold that is not relative to the norm shows here
+        e = rr.uniform(1.5, 4.0) / max(d, 1) * (-1 if vals == 'tiny' else 1)
+        if dt == torch.float32:
+            e = e / 2
+        return gens.make_tt(N, R, dt, 'gauss', g, M=M, scales=[10.0 ** e] * d)
     return gens.make_tt(N, R, dt, vals, g, M=M)
 
 
